@@ -233,6 +233,16 @@ def run(ctx: Ctx, sub=None) -> None:
         if len(samples) < 4:
             samples.append({"method": method, "class": req_name, "response": resp_name, "constant": const,
                             "direction": msg["messageDirection"]})
+    # ... "and for nothing else": an exported UPPER_SNAKE string constant that looks like a method ("a/b", "$/x", or equal to a
+    # method) has to be the constant of a declared method
+    import re as _re
+    expected_consts = {upper_snake_method(mm) for mm in methods}
+    for cname in dir(t):
+        val = getattr(t, cname, None)
+        if isinstance(val, str) and _re.fullmatch(r"[A-Z][A-Z0-9_]*", cname) and not cname.startswith("__"):
+            evaluations += 1
+            if (("/" in val) or val in methods) and (val not in methods or cname not in expected_consts):
+                fail("extra-constant", cname, f"{cname} = {val!r} corresponds to no declared method")
     # unknown method raises
     evaluations += 1
     for bogus in ("", "no/such/method", "Initialize", "textDocument/hover "):
